@@ -74,7 +74,8 @@ def gen(tier, rng, harness, driver):
     # (values for which the model predicts the recorded loss of a NaN payload belong to C10's finding, not to this property: left out)
     cand = [l for l in (pC10.gen("quick", rng, harness) if pC10.gen.__code__.co_argcount < 4 else pC10.gen("quick", rng, harness, driver)) if l.startswith("!flt.rt")]
     # (every kind takes part: all float and double lines — the kinds printed in decimal — and a share of the others)
-    cand = [l for l in cand if l.split()[1] in ("float", "double")] + [l for l in cand if l.split()[1] not in ("float", "double")][: (600 if tier == "quick" else 20000)]
+    # (ppc_fp128 is left to C10: pairs are re-canonicalised — a recorded finding of C10 that the model cannot predict from the literal)
+    cand = [l for l in cand if l.split()[1] in ("float", "double")] + [l for l in cand if l.split()[1] not in ("float", "double", "ppc_fp128")][: (600 if tier == "quick" else 20000)]
     lines += [l for l, pred in zip(cand, C.run_lines([driver], cand, shards=8)) if pred == "ok"]
     lines += [l for l in pC08.gen("quick", rng, harness, driver) if l.startswith(("!num.check", "num.api", "num.modapi"))][: (900 if tier == "quick" else 6000)]
     # every pair / triple of KINDS of unnamed global entity built through the Module builder methods, in every order (they share one ID sequence,
